@@ -74,7 +74,19 @@ template <class Dom> struct fuzz {
   static long eval(int c0, const int c[NV], const cstate &s) { long x = c0; for (int i = 0; i < NV; i++) x += (long)c[i] * s[i]; return x; }
 
   // one random operation applied to (d, cs); returns false on failure
+  // value semantics (C16): a copy taken before an operation on d must print the same afterwards
   bool step(Dom &d, cset &cs, int depth) {
+    if (cs.empty()) return true;
+    if (depth == 0 && r.in(0, 3) == 0) {
+      Dom keep(d); crab::crab_string_os b1; b1 << keep; std::string before = b1.str();
+      bool ok = step_op(d, cs, depth);
+      crab::crab_string_os b2; b2 << keep; std::string after = b2.str();
+      if (ok && before != after) { failed = true; crab::outs() << "COPY CHANGED: a copy taken before the last operation printed\n   " << before << "\n and now prints\n   " << after << "\n  trace:\n"; for (auto &t : trace) crab::outs() << "    " << t << "\n"; return false; }
+      return ok;
+    }
+    return step_op(d, cs, depth);
+  }
+  bool step_op(Dom &d, cset &cs, int depth) {
     if (cs.empty()) return true;
     int k = r.in(0, 99);
     std::ostringstream os;
